@@ -277,6 +277,14 @@ fn run_case(c: &Case, rep: &mut CaseReport) -> Verdict {
         t.push_str(&format!(" WHERE {}", q.w.print()));
         texts.push((t, q.ctx, since, q.w.clone(), false));
     }
+    // scope-only probes: without a WHERE the collector combines the zones of the event-type and context selectors (with a
+    // WHERE it takes the zones of the WHERE tree and leaves the scope to the row evaluator), so the per-segment context
+    // index is only exercised here. The always-true comparison is the reference's stand-in for "no WHERE".
+    let all_rows = WExpr::Cmp { field: "k".into(), op: Cmp::Gte, lit: Lit::Int(crate::hist::K_BASE) };
+    texts.push(("QUERY ev".to_string(), None, None, all_rows.clone(), false));
+    for cx in 0..N_CTX {
+        texts.push((format!("QUERY ev FOR {}", quote_ctx(&ctx_name(cx))), Some(cx), None, all_rows.clone(), false));
+    }
     let mut lv = vec![];
     for q in &c.queries {
         leaves(&q.w, &mut lv);
